@@ -663,6 +663,22 @@ pub fn run(args: &Args) {
 			}
 		}
 	}
+	// checklist 12/13: shared trap strings and number borders as plain values and texts
+	for t in crate::c19_gen::UNICODE_TRAPS {
+		emit_value(&mut out, &JsonValue::String(t.to_string()));
+		emit_value(&mut out, &JsonValue::Object(JsonObject(BTreeMap::from([(t.to_string(), JsonValue::Array(JsonArray(vec![JsonValue::String(format!("{t}\"{t}\\{t}"))])))]))));
+		let mut esc = String::from("\"");
+		for c in t.chars().filter(|c| (*c as u32) < 0x10000) {
+			esc.push_str(&format!("\\u{:04X}", c as u32));
+		}
+		esc.push('"');
+		emit_text(&mut out, esc.as_bytes(), "trap");
+	}
+	for n in crate::c19_gen::NUM_BORDERS {
+		for t in [n.to_string(), format!("-{n}"), format!("[{n},{n}]"), format!("{{\"k\":{n}}}"), format!("{n}.5"), format!("{n}e0"), format!("{n}E-2")] {
+			emit_text(&mut out, t.as_bytes(), "border");
+		}
+	}
 	for t in FIXED_TEXTS {
 		emit_text(&mut out, t.as_bytes(), "fixed");
 	}
@@ -808,5 +824,8 @@ pub fn run(args: &Args) {
 	out.notes.push("checklist 2 (faults after open): n.a. – every reader parses the metadata once in open(); get_tilejson() returns the in-memory document, there is no later I/O to fail (a torn or undecodable metadata blob at open is C12/C19 territory; try_from_blob_or_default then yields the default document)".into());
 	out.notes.push("checklist 3 (payload classes): metadata is never empty (the document always has `tilejson`) and is not de-duplicated; covered: lengths 127 B … 64 KiB ±1 (1 MiB in the thorough tier), compressible and incompressible, in all containers".into());
 	out.notes.push("checklist 6 (scheduling): the only concurrent code on this path is read_ndjson_stream (buffered, order-preserving) – compared item by item with read_ndjson_iter on every NDJSON input; container metadata is read synchronously".into());
+	out.notes.push("checklist 11 (fallbacks): the readers' fallback is the default TileJSON when stored metadata does not parse; every container case demands that a document inside the model comes back with all its keys (never the default) – incl. bounds failing GeoBBox::check, free-layout texts from independent writers, size/boundary families; texts outside the model (BOM, nested unknown fields) are recorded, not judged".into());
+	out.notes.push("checklist 12 (Unicode traps): c19_gen::UNICODE_TRAPS as string values, object keys, list items, layer ids / field names / descriptions, as \\uXXXX escapes, through stringify/parse (C17s/C17p), TileJSON (C17t/C17x), containers and tiles.json; multi-byte characters at every alignment of the 16-byte window, 256/1024 cuts and 4096/8192 buffers (offset family); NDJSON blank-line detection with Unicode white space".into());
+	out.notes.push("checklist 13 (numbers as text): c19_gen::NUM_BORDERS verbatim as JSON texts (also negated, with fraction / exponent) and in every numeric TileJSON field (minzoom, maxzoom, fillzoom, bounds, center, layer zooms, generic) through parse → model → try_from → as_string → containers → tiles.json".into());
 	out.finish();
 }
